@@ -2,6 +2,7 @@ package kad
 
 import (
 	"bytes"
+	"encoding/binary"
 	"errors"
 	"fmt"
 	"io"
@@ -24,20 +25,21 @@ func init() { log.SetOutput(io.Discard) } // the DHT functions log every failed 
 type behaviour int
 
 const (
-	bHonest      behaviour = iota // answers from a routing table (random subset), nearest first / closer-than-me
-	bRealNode                     // a real kademlia.DHTNode answers
-	bError                        // the ask fails
-	bAll                          // returns every node of the network (incl. itself and the asker's earlier contacts)
-	bSelf                         // returns itself
-	bFabricate                    // returns ids from the fabricated pool (nodes that do not exist)
-	bHuge                         // returns thousands of entries (pool and network repeated)
-	bTargetBogus                  // returns the target id with bogus info
-	bFarther                      // returns only ids farther than itself
-	bCycle                        // returns the nodes that were contacted before it
+	bHonest        behaviour = iota // answers from a routing table (random subset), nearest first / closer-than-me
+	bRealNode                       // a real kademlia.DHTNode answers
+	bError                          // the ask fails
+	bAll                            // returns every node of the network (incl. itself and the asker's earlier contacts)
+	bSelf                           // returns itself
+	bFabricate                      // returns ids from the fabricated pool (nodes that do not exist)
+	bHuge                           // returns thousands of entries (pool and network repeated)
+	bTargetBogus                    // returns the target id with bogus info
+	bFarther                        // returns only ids farther than itself
+	bCycle                          // returns the nodes that were contacted before it
+	bFreshNoCloser                  // mints 1-2 ids nobody has seen, none of them closer to the key than itself; the minted nodes answer the same way
 	numBehaviours
 )
 
-var behaviourNames = []string{"honest", "real", "error", "all", "self", "fabricate", "huge", "targetBogus", "farther", "cycle"}
+var behaviourNames = []string{"honest", "real", "error", "all", "self", "fabricate", "huge", "targetBogus", "farther", "cycle", "freshNoCloser"}
 
 type simNode struct {
 	id      p2p.PeerID
@@ -62,7 +64,13 @@ type simNet struct {
 	advUsed   bool
 	redundant bool // some response named an already contacted / queued node
 	desc      []string
+	minted    int // ids minted by bFreshNoCloser responders
+	mintedAsk int // asks that went to minted ids
 }
+
+// askBudget bounds a run against responders that mint fresh ids for ever. An implementation that keeps following
+// referrals that bring it no closer to the key never terminates; the unchanged library asks none of them.
+const askBudget = 2000
 
 type recontactPanic struct{ id p2p.PeerID }
 
@@ -150,6 +158,16 @@ func genNet(t *rapid.T) *simNet {
 		nt.target = genID(t, style, "target")
 	}
 	nt.key = append([]byte{}, nt.target[:]...)
+	// DHTGet / DHTPut take arbitrary keys: mostly id-sized, sometimes shorter than an id (distances are then
+	// compared on the key's length only, so many ids tie)
+	if kl := rapid.SampledFrom([]int{32, 32, 32, 32, 1, 2, 4, 8}).Draw(t, "keyLen"); kl < 32 {
+		nt.key = nt.key[:kl]
+		for _, nd := range nt.nodes {
+			if nd.beh == bRealNode {
+				nd.beh, nd.real = bHonest, nil // real nodes index their caches by id-sized keys
+			}
+		}
+	}
 	for _, nd := range nt.nodes {
 		if nd.real != nil && nd.value != nil {
 			nd.real.Put(nt.key, nd.value, 1e9)
@@ -188,6 +206,12 @@ func (nt *simNet) noteAsk(id p2p.PeerID) {
 	if nt.asked[id] > 1 {
 		nt.recontact = &id
 		panic(recontactPanic{id})
+	}
+	if nd := nt.byID[id]; nd != nil && nd.beh == bFreshNoCloser && nd.table == nil && nd.value == nil && nt.minted > 0 {
+		nt.mintedAsk++
+	}
+	if len(nt.order) > askBudget {
+		panic(fmt.Sprintf("no termination within %d asks (%d ids minted by responders that only name nodes no closer to the key than themselves, %d asks went to such ids)", askBudget, nt.minted, nt.mintedAsk))
 	}
 	if len(nt.order) > len(nt.mentioned)+1 {
 		panic(fmt.Sprintf("more asks (%d) than distinct ids ever mentioned (%d)", len(nt.order), len(nt.mentioned)))
@@ -254,6 +278,31 @@ func (nt *simNet) peerList(nd *simNode, honestLimit int, closerOnly bool) []kade
 		for _, id := range nt.order {
 			add(id)
 		}
+	case bFreshNoCloser:
+		nt.advUsed = true
+		for k := 0; k < 2; k++ {
+			// same bytes as the responder where the key is compared (a tie), fresh bytes elsewhere; for id-sized
+			// keys the candidate is kept only if it is not closer than the responder
+			for try := 0; try < 64; try++ {
+				nt.minted++
+				id := nd.id
+				kl := min(len(nt.key), len(id))
+				if kl >= len(id) {
+					kl = len(id) - 4
+				}
+				binary.BigEndian.PutUint32(id[len(id)-4:], uint32(nt.minted)*2654435761)
+				for i := kl; i < len(id)-4; i++ {
+					id[i] ^= byte(nt.minted >> (uint(i) % 8))
+				}
+				if nt.byID[id] != nil || id.IsZero() || refCmp(nt.key, id[:], nd.id[:]) < 0 {
+					continue
+				}
+				mn := &simNode{id: id, beh: bFreshNoCloser, accepts: nd.accepts}
+				nt.byID[id] = mn
+				add(id)
+				break
+			}
+		}
 	}
 	for _, ni := range out {
 		if nt.asked[ni.ID] > 0 {
@@ -315,7 +364,7 @@ func (nt *simNet) record(sub string, initial []kademlia.NodeInfo) {
 	}
 }
 
-const c20rule = "rapid: simulated networks of 1-24 nodes (ids from a tiny dense space, a cluster sharing 30 bytes, or random), routing tables as random subsets, per-node behaviour in {honest list, real DHTNode handler, error, all nodes, self, fabricated ids from a finite pool, 3000-entry list, target with bogus info, only farther ids, previously contacted nodes}; initial sets of 0-8 incl. duplicates and fabricated ids; oracle: per-id ask counter (second ask aborts) and the whole-network truthfulness rules; non-trivial = an adversarial responder was contacted or a response named an already-contacted node; distinct by (network, target, initial, ask order)"
+const c20rule = "rapid: simulated networks of 1-24 nodes (ids from a tiny dense space, a cluster sharing 30 bytes, or random), routing tables as random subsets, per-node behaviour in {honest list, real DHTNode handler, error, all nodes, self, fabricated ids from a finite pool, 3000-entry list, target with bogus info, only farther ids, previously contacted nodes, 1-2 freshly minted ids per ask that are no closer to the key than the responder and answer the same way}; DHTGet/DHTPut keys of 32 bytes or, 1, 2, 4 or 8 bytes (ids then tie on the compared prefix); a run that needs more than 2000 asks counts as non-terminating; initial sets of 0-8 incl. duplicates and fabricated ids; oracle: per-id ask counter (second ask aborts) and the whole-network truthfulness rules; non-trivial = an adversarial responder was contacted or a response named an already-contacted node; distinct by (network, target, initial, ask order)"
 
 func TestC20FindNode(t *testing.T) {
 	const sub = "C20.find_node"
